@@ -527,9 +527,9 @@ def handle (toks : List String) (impl : String) : Verdict :=
           "fail:C08-not-closed-after-invalid-data"
         else if on "C08" && f.readEnds && connectedOk && !f.dropMain && !(f.droppedSeen && (f.evend || f.evDropped) && f.closedSeen) then
           "fail:C08-not-closed-after-fault"
-        else if on "C08" && f.uncleanEof && connectedOk && !f.dropMain && f.cancelled.isEmpty && !(containsStr impl "proto:ueof") then
+        else if on "C08" && f.uncleanEof && connectedOk && !f.dropMain && !f.evDropped && f.cancelled.isEmpty && !(containsStr impl "proto:ueof") then
           "fail:C08-unclean-end-of-stream-not-surfaced"
-        else if on "C08" && connectedOk && !f.dropMain && f.cancelled.isEmpty &&
+        else if on "C08" && connectedOk && !f.dropMain && !f.evDropped && f.cancelled.isEmpty &&
             (match f.liveReadFault with | some k => !(containsStr impl s!"proto:io{k}") | none => false) then
           "fail:C08-read-error-not-surfaced"
         else if on "C08" && f.dropMain && connectedOk && !f.faulted && startsWith f.sv.out body && pendImpl.isEmpty &&
